@@ -63,15 +63,27 @@ func checkRangeIndexHelper(ri *structs.Numbers, colVal string, operator sutils.F
 		case sutils.RNT_UNSIGNED_INT:
 			convertedVal, err := dtu.ConvertToUInt(colVal, 64)
 			if err != nil {
-				log.Errorf("qid=%d checkRangeIndexHelper: Got an invalid literal for range filter: %s", qid, err)
-				return false
+				// The literal is not an unsigned integer (e.g. 1.5 or -2); the column
+				// still has to be compared with it by value.
+				floatVal, floatErr := dtu.ConvertToFloat(colVal, 64)
+				if floatErr != nil {
+					log.Errorf("qid=%d checkRangeIndexHelper: Got an invalid literal for range filter: %s", qid, err)
+					return false
+				}
+				return doesFloatPassRangeFilter(operator, floatVal, float64(ri.Min_uint64), float64(ri.Max_uint64))
 			}
 			valueInRangeIndex = doesUintPassRangeFilter(operator, convertedVal, ri.Min_uint64, ri.Max_uint64)
 		case sutils.RNT_SIGNED_INT:
 			convertedVal, err := dtu.ConvertToInt(colVal, 64)
 			if err != nil {
-				log.Errorf("qid=%d checkRangeIndexHelper: Got an invalid literal for range filter: %s", qid, err)
-				return false
+				// The literal is not an integer (e.g. 1.5); the column still has to be
+				// compared with it by value.
+				floatVal, floatErr := dtu.ConvertToFloat(colVal, 64)
+				if floatErr != nil {
+					log.Errorf("qid=%d checkRangeIndexHelper: Got an invalid literal for range filter: %s", qid, err)
+					return false
+				}
+				return doesFloatPassRangeFilter(operator, floatVal, float64(ri.Min_int64), float64(ri.Max_int64))
 			}
 			valueInRangeIndex = doesIntPassRangeFilter(operator, convertedVal, ri.Min_int64, ri.Max_int64)
 		case sutils.RNT_FLOAT64:
